@@ -247,6 +247,11 @@ func (p *MetadataPersister) GetHeaderChildren(ctx context.Context, name string) 
 
 	outhdrs := []*config.Header{}
 	for _, hdr := range headers {
+		// `like` treats `_` and `%` in the name as wildcards and ignores ASCII case, so check the prefix exactly
+		if !strings.HasPrefix(hdr.Name, strings.TrimSuffix(name, "/")+"/") {
+			continue
+		}
+
 		prefix := strings.TrimSuffix(hdr.Name, "/")
 		if name != prefix && name != prefix+"/" {
 			outhdrs = append(outhdrs, converters.DBHeaderToConfigHeader(hdr))
